@@ -72,7 +72,13 @@ pub fn load_findings(path: &str) -> Vec<Finding> {
 pub fn known_match<'a>(findings: &'a [Finding], property: &str, class: &str) -> Option<&'a str> {
     for f in findings {
         if let Finding::Known { property: p, signature, text } = f {
-            if p == property && signature == class {
+            // a signature ending in '*' matches every class with that prefix
+            // (used for one finding only: allocation failures, see DESIGN §11.2)
+            let hit = match signature.strip_suffix('*') {
+                Some(prefix) => class.starts_with(prefix),
+                None => signature == class,
+            };
+            if p == property && hit {
                 return Some(text);
             }
         }
